@@ -73,7 +73,10 @@ class Serializer:
         if i is not None:
             return i
         cls, args = e.__reduce__()
-        entry = [cls.__name__] + [self.arg(a) for a in args]
+        name = cls.__name__
+        if name in ('Add', 'Sum', 'Inflate', 'LoopSum') and getattr(e, 'dtype', None) == bool:
+            name += '@bool'   # boolean addition is logical or (Multiply/Product on bool are and = the numeric product)
+        entry = [name] + [self.arg(a) for a in args]
         self.classes.add(cls.__name__)
         self.nodes.append(entry)
         self._keep = getattr(self, '_keep', []); self._keep.append(e)  # keep alive so id() stays unique
